@@ -12,7 +12,7 @@ let fmt_of = function
 let entry_of = function "i" -> EImport | "f" -> EForced | _ -> failwith "entry"
 let size_of = function "u16" -> 2 | "u32" -> 4 | "u64" | "i64" -> 8 | _ -> failwith "type"
 let tamper_of = function
-  | "n" -> TNone | "hv" -> THeaderVersion | "fb" -> TFormatByte | "sh" -> TShortMain | "ax" -> TAuxOdd
+  | "n" -> TNone | "hv" -> THeaderVersion | "fb" -> TFormatByte | "sh" -> TShortMain | "ax" -> TAuxOdd | "ml" -> TMisaligned
   | _ -> failwith "tamper"
 
 let ename = function
